@@ -14,7 +14,7 @@ git apply $out/patch.diff || { echo "patch does not apply"; exit 2; }
 build=$(timeout 600 go build ./... 2>&1 | tail -1)
 withp=$(timeout 600 go test -count=1 -run "^$tname\$" ./$pkgdir 2>&1 | tail -1)
 rm -f $pkgdir/zz_seeded_demo_test.go
-suite=$(timeout 900 go test -count=1 ./... 2>&1 | grep -v '^ok\|no test files' | head -3)
+suite=$(timeout 900 go test -count=1 ./... 2>&1 | grep -E "^(FAIL|--- FAIL|panic:)" | head -3)
 git checkout -q -- . ; git clean -fdq
 echo "demo on unchanged: $base"; echo "demo with patch:   $withp"; echo "suite with patch failures: [$suite] build: [$build]"
 case "$base" in ok*) ;; *) echo "NOT CONFIRMED (demo fails on unchanged code)"; exit 1;; esac
